@@ -21,6 +21,7 @@ func init() {
 			c20R2(c, "C20.R2")
 			c20R3(c, "C20.R3")
 			c20R4(c, "C20.R4")
+			c13R1(c, "C20.R9") // "freelist rebuild restores exactly the unreachable pages": abandon + rebuild persists what db.freepages() computes
 			ruleTestedErrorsPropagate(c, "C20.R7", []string{modulePath + "/internal/guts_cli", modulePath + "/internal/surgeon", cmdPath, commonPath}, 30, func(n string) bool {
 				return !strings.HasPrefix(n, "command.") || strings.Contains(strings.ToLower(n), "surgery") || strings.Contains(n, "MetaPageAt")
 			}) // a repair step that failed is not reported as success
